@@ -6,18 +6,18 @@ require (
 	github.com/andybalholm/brotli v1.1.1
 	github.com/imroc/req/v3 v3.0.0
 	github.com/klauspost/compress v1.17.11
+	github.com/quic-go/qpack v0.5.1
 	github.com/quic-go/quic-go v0.48.2
+	golang.org/x/net v0.33.0
 )
 
 require (
 	github.com/cloudflare/circl v1.5.0 // indirect
 	github.com/hashicorp/errwrap v1.1.0 // indirect
 	github.com/hashicorp/go-multierror v1.1.1 // indirect
-	github.com/quic-go/qpack v0.5.1 // indirect
 	github.com/refraction-networking/utls v1.6.7 // indirect
 	golang.org/x/crypto v0.31.0 // indirect
 	golang.org/x/exp v0.0.0-20241215155358-4a5509556b9e // indirect
-	golang.org/x/net v0.33.0 // indirect
 	golang.org/x/sys v0.28.0 // indirect
 	golang.org/x/text v0.21.0 // indirect
 )
